@@ -1506,6 +1506,11 @@ class ElectrumX(SessionBase):
         '''
         tx_hash = assert_tx_hash(tx_hash)
         height = non_negative_integer(height)
+        if txid_or_tx not in ('txid', 'tx'):
+            raise RPCError(BAD_REQUEST, '"txid_or_tx" must be "txid" or "tx"')
+        if target_type not in ('block_hash', 'block_header', 'merkle_root'):
+            raise RPCError(BAD_REQUEST, '"target_type" must be "block_hash", "block_header" '
+                                        'or "merkle_root"')
 
         tsc_proof, cost = await self.session_mgr.tsc_merkle_proof_for_tx_hash(
             height, tx_hash, txid_or_tx, target_type)
